@@ -228,8 +228,19 @@ pub fn gen_timeline(r: &mut Rng, shape: &str, exact: bool, tame: bool) -> GenTl 
     let rep = if r.chance(1, 8) { None } else { Some(repeat_tok(r)) };
     let rev = if r.chance(1, 4) { None } else { Some(r.chance(1, 2)) };
     let easing = if r.chance(1, 4) { None } else { Some(easing_tok(r, !exact)) };
-    let nkf = match r.below(10) { 0 => 0, 1 => 1, 2 | 3 => 2, 4 | 5 => 3, 6 => 4, 7 => 5, 8 => 6, _ => 8 } as usize;
-    let lattice: Vec<f32> = pos_pool(r, exact);
+    let mut nkf = match r.below(10) { 0 => 0, 1 => 1, 2 | 3 => 2, 4 | 5 => 3, 6 => 4, 7 => 5, 8 => 6, _ => 8 } as usize;
+    let mut lattice: Vec<f32> = pos_pool(r, exact);
+    // one timeline in sixteen is long (up to 40 keyframes, none guaranteed at 0% or 100%): size-dependent code paths
+    // (a different search above some length, small-vector spill-over, counters) only show there
+    if r.chance(1, 16) {
+        nkf = r.pick(&[9usize, 12, 16, 17, 24, 32, 33, 40]);
+        while lattice.len() < nkf + 4 {
+            let p = if exact { r.below(1025) as f32 / 1024.0 } else { r.unit_f32() };
+            if p > 0.0 && p < 1.0 && !lattice.contains(&p) { lattice.push(p); }
+        }
+        if r.chance(1, 2) { lattice.retain(|p| *p != 0.0); }
+        if r.chance(1, 2) { lattice.retain(|p| *p != 1.0); }
+    }
     // per-field presence probability (some fields never present: sentinels)
     let presence: Vec<u64> = anim.iter().map(|_| r.pick(&[0u64, 0, 1, 2, 3, 4, 4])).collect();
     let distinct = r.chance(1, 2);
@@ -805,6 +816,36 @@ fn gen_anim(r: &mut Rng, n: usize, out: &mut dyn Write) {
                     cur = s;
                 }
             }
+        }
+        // one block in twenty-five ends with a very long run of transitions between *animated* states after a pause
+        // (254…258 or 511…513 entries, around the wrap-around points of 8- and 9-bit counters), then returns to the
+        // paused state: anything that counts blends / transitions in a narrow integer shows up only here
+        let animated: Vec<usize> = (0..nstates).filter(|k| toks[*k] != "-").collect();
+        let resting: Vec<usize> = (0..nstates).filter(|k| toks[*k] == "-").collect();
+        if animated.len() >= 2 && !resting.is_empty() && r.chance(1, 25) {
+            let a = animated[0];
+            let u = resting[0];
+            let others: Vec<usize> = animated[1..].to_vec();
+            writeln!(out, "set 0 {}", a).unwrap();
+            writeln!(out, "adv 0 {}", b(0.25)).unwrap();
+            writeln!(out, "set 0 {}", u).unwrap();
+            writeln!(out, "adv 0 {}", b(0.5)).unwrap();
+            let n = r.pick(&[254usize, 255, 256, 257, 258, 511, 512, 513]);
+            // with a single other animated state the run alternates other/A, which also enters an animated state each time
+            let mut prev = u;
+            for k in 0..n {
+                let mut s = if others.len() >= 2 { others[k % others.len()] } else if k % 2 == 0 { others[0] } else { a };
+                if s == prev { s = a; }
+                if k + 1 == n && s == a { s = others[0]; }     // the run must not end in A itself
+                writeln!(out, "set 0 {}", s).unwrap();
+                if c04_ok { writeln!(out, "# eqvprev C04").unwrap(); }
+                if k % 16 == 7 { writeln!(out, "adv 0 {}", b(0.125)).unwrap(); }
+                prev = s;
+            }
+            writeln!(out, "set 0 {}", a).unwrap();
+            if c04_ok { writeln!(out, "# eqvprev C04").unwrap(); }
+            writeln!(out, "adv 0 {}", b(0.25)).unwrap();
+            writeln!(out, "adv 0 {}", b(1.0)).unwrap();
         }
     }
 }
